@@ -16,6 +16,7 @@
 #include <climits>
 #include <functional>
 #include "vf.hpp"
+#include "crashnote.hpp"
 #ifndef VF_FUZZ
 #include <rapidcheck.h>
 #endif
@@ -468,7 +469,9 @@ static void run_cmdline(Cur &c, Out &out) {
 }
 
 // --------------------------------------------------------------------------------------------- dispatch
+static std::string words_text(const Words &w);
 static Out run_words(const Words &w) {
+    crashnote::set(words_text(w) + (g_include_overrun ? "ENV C39_INCLUDE_DELETE_OVERRUN=1\n" : ""));
     Out out; Cur c(w);
     long kind = c.next() % 4;
     if (kind == 0) { out.lab["kind_split"]++; run_split(c, out); }
@@ -521,6 +524,7 @@ int main(int argc, char **argv) {
         if (o.err.empty()) { printf("REPLAY-PASS\n"); return 0; }
         printf("REPLAY-FAIL %s\n", o.err.c_str()); return 1;
     }
+    crashnote::install();
     bool ok = rc::check("argv utilities and cmd_line == model", []() {
         const auto len = *rc::gen::inRange<int>(1, 160);
         Words w = *rc::gen::container<Words>((size_t)len, rc::gen::resize(100, rc::gen::inRange<long>(0, 65536)));
